@@ -241,7 +241,7 @@ def run(ctx):
     raise fnspec.tlc.MachineryError("TLC found %d distinct states (%d seeds) but wrote %d inputs" % (
       model["distinct"], seeds, len(inputs)))
   ctx.log("TLC enumerated %d inputs (%d distinct states) in %.1fs" % (len(inputs), model["distinct"], model["wall"]))
-  rnd = random_inputs(ctx.seed, 600 if ctx.quick else 10000)
+  rnd = random_inputs(ctx.seed, 600 if ctx.quick else 8000)
   todo = inputs + rnd
   # the worker builds one document per (from, two, vis): keep the groups together in the shards
   todo.sort(key=lambda i: (i["from"], i["two"], i["vis"], i["to"]))
